@@ -26,7 +26,8 @@ CHECKS = {
    technique="exhaustive subset enumeration of relabelled block types, output parsed by an independent header codec",
    text="For every corpus file with a size table every non-empty subset of its block type names (all 2^T-1 up to T=10) is relabelled unknown by an independent header codec; after Load+Save "
         "(raw and default, of the loaded model and of a copy of it) the independent parser checks count, order, type names, sizes, payload bytes of unknown blocks and that every input "
-        "string index still denotes the same string; every corpus entry also runs with a string table that holds one text twice.",
+        "string index still denotes the same string; every corpus entry also runs with a string table that holds one text twice, and with an explicit SetShapeOrder / "
+        "PrettySortBlocks / Optimize / DeleteUnreferencedNodes between load and save (nothing may move or go while unknown blocks are present).",
    note="Files without block sizes cannot carry unknown blocks (Load rejects them) and are outside the property; quick uses singletons for files with more than 8 types."),
  "C04": dict(engine="graph grammar + block permutation codec", cat="exploration", ref="DESIGN.md 4 C04",
    technique="exhaustive enumeration of small scene graphs x block orders x sort operations against an identity-graph permutation model",
@@ -50,7 +51,8 @@ CHECKS = {
  "C07": dict(engine="E1 corpus + edit menu + independent codec", cat="exploration", ref="DESIGN.md 4 C07",
    technique="exhaustive enumeration of written files (E1 decision paths, sample files x edit menu) parsed by an independent header codec",
    text="Every file written for the E1 corpus (deviation <= 1 / 2) and for every sample file after each edit of a menu (delete block i, add node/shape/extra data, delete vertex, rename, "
-        "set texture, convert, clone), raw and default: the independent parser walks the tables to the footer, each block is re-read and its consumed size compared with the header entry, "
+        "set texture, convert, clone, key interpolation, replace block by the same type, header free-text setters around their length limits, reuse of the object through Create), raw and "
+        "default: the independent parser walks the tables to the footer, each block is re-read and its consumed size compared with the header entry, "
         "string table free of duplicates, maxStringLen exact, every string index in range.",
    note="Per-block sizes are cross-checked against the library's own readers (writer-side counter vs reader consumption); unknown blocks are outside (C03)."),
  "C08": dict(engine="two builds, differential", cat="exploration", ref="DESIGN.md 4 C08",
@@ -69,7 +71,8 @@ CHECKS = {
    technique="exhaustive enumeration of partition operation histories (all triangle assignments) checked against cover/bone-limit/weight invariants",
    text="All histories up to depth 2 / 3 over UpdateSkinPartitions, Get/SetShapePartitions (every assignment in {-1,0,1,2}^T), SetDefaultPartition, DeletePartitions (every subset), "
         "RemoveEmptyPartitions, Save+Load on skinned meshes in OB/FO3/SK/SSE incl. 20- and 84-bone meshes that cross the bone limits; after every rebuild each partition row must carry "
-        "the four largest NiSkinData weights of its vertex on the right bones and every triangle must keep its body part.",
+        "the four largest NiSkinData weights of its vertex on the right bones and every triangle must keep its body part. SetTriangles (drop last / append one) is part of the alphabet: "
+        "the partitions are then stale until an operation rebuilds or reassigns them.",
    note="At most one operation of a history ranges over the full SetShapePartitions alphabet; vertex-map facts are demanded only once a partition is prepared."),
  "C11": dict(engine="scenario enumeration", cat="exploration", ref="DESIGN.md 4 C11",
    technique="exhaustive enumeration of copy kind x edit history (<= 2) x destruction order scenarios with twin-object byte oracle under ASan",
@@ -92,7 +95,8 @@ CHECKS = {
  "C14": dict(engine="scenario enumeration", cat="exploration", ref="DESIGN.md 4 C14",
    technique="exhaustive enumeration of (shape, destination, clone count) scenarios with masked payload compare",
    text="Every shape of every sample file and API-built model x destination {same model, fresh model, other models of the version} x 1-2 clones; source untouched (twin bytes), every "
-        "reference of the clone resolves inside the destination to an equal block (masked payload compare), bones, snapshot, save+reload.",
+        "reference of the clone resolves inside the destination to an equal block (masked payload compare), pointers into the cloned subtree are rebound, bones exist with the "
+        "source's node class, snapshot, save+reload. API-built models add strips/LOD/segmented shapes, controller chains, bone hierarchies, flat skeletons, model-space-normal shaders.",
    note="Pointers that leave the cloned subtree only have to reach a block of the same type (root pointers: the destination's root)."),
  "C15": dict(engine="E3 fault enumeration", cat="fault_enumeration", ref="DESIGN.md 3.7, 4 C15",
    technique="exhaustive fault-placement enumeration (every reference field x corruption kinds, 1-3 simultaneous) executed under sanitizers with a watchdog",
@@ -108,7 +112,8 @@ CHECKS = {
  "C17": dict(engine="E2 label lists", cat="model_checking", ref="DESIGN.md 4 C17",
    technique="exhaustive enumeration of segmentation shapes x label lists x follow-up operations against a stable-sort reference model",
    text="All label lists over declared ids and -1 for T <= 4 / 5 triangles x 39 segmentation shapes x permuted numberings, set/get, every single-vertex deletion, save+reload; same for "
-        "partition assignment on skinned SK/SSE(/FO3) shapes (also Set -> RemoveEmptyPartitions -> Get); ranges contiguous, ordered, summing to T, triangles a permutation.",
+        "partition assignment on skinned SK/SSE(/FO3) shapes (also Set -> RemoveEmptyPartitions -> Get); ranges contiguous, ordered, summing to T, triangles a permutation; FO4 shapes "
+        "with 65535..70000 triangles as boundary cases.",
    note="Numberings: all permutations up to 3 / 4 ids, four fixed ones beyond; labels outside the declared ids are caller errors and not generated."),
  "C18": dict(engine="E4 small scope", cat="model_checking", ref="DESIGN.md 4 C18",
    technique="exhaustive small-scope enumeration against naive reference definitions under ASan/UBSan",
